@@ -359,7 +359,7 @@ Proof.
         assert (E3' = []) by (destruct E3'; [reflexivity|simpl in LE3; lia]). subst E3'.
         rewrite app_nil_r in EQ.
         rewrite EQ in NDE. apply NoDup_app_parts in NDE. destruct NDE as (N1 & N2 & D12).
-        destruct (fini_range sz (bsize b) E2' (S (length EL * sz)) q (map STok E1') J (wctx w1) m)
+        destruct (fini_range (ehf e) sz (bsize b) E2' (S (length EL * sz)) q (map STok E1') J (wctx w1) m)
           as (c1 & m1 & FL & S1 & SC); try assumption.
         { rewrite map_length. assumption. }
         { rewrite EQ, app_length in ULE. nia. }
@@ -369,8 +369,8 @@ Proof.
         replace ((q + length E2') * sz) with (length EL * sz) in FL by (rewrite EQ, app_length; nia).
         rewrite SL. replace (map STok EL) with (map STok E1' ++ map STok E2') by (rewrite EQ, map_app; reflexivity).
         rewrite <- app_assoc.
-        replace (fini_loop (S (length EL * sz)) sz (bsize b) 0 len (length EL * sz))
-          with (fini_loop (S (length EL * sz)) sz (bsize b) 0 (q * sz) (length EL * sz))
+        replace (fini_loop (ehf e) (S (length EL * sz)) sz (bsize b) 0 len (length EL * sz))
+          with (fini_loop (ehf e) (S (length EL * sz)) sz (bsize b) 0 (q * sz) (length EL * sz))
           by (rewrite <- A1; reflexivity).
         rewrite FL. cbn [bind].
         rewrite firstn_exact by (rewrite map_length; assumption).
@@ -643,7 +643,7 @@ Proof.
   unfold cxx_trim. rewrite Nat.ltb_irrefl, Nat.sub_diag.
   destruct (btr b) as [k|].
   - dif; [discriminate|].
-    destruct (fini_loop (S (bused b)) (esz e k) (bsize b) 0 0 (bused b) (bslots b) c) as [[sl1 c2]| |]; cbn [bind];
+    destruct (fini_loop (ehf e) (S (bused b)) (esz e k) (bsize b) 0 0 (bused b) (bslots b) c) as [[sl1 c2]| |]; cbn [bind];
       try discriminate.
     intros [= <- _]. split; reflexivity.
   - intros [= <- _]. split; reflexivity.
@@ -845,12 +845,12 @@ Proof.
   set (sz := esz e k) in *.
   assert (UA : bused b - bused b mod sz = length EL * sz) by (rewrite US, mul_mod by assumption; lia).
   rewrite UA.
-  destruct (fini_range sz (bsize b) EL (S (length EL * sz)) 0 [] J c m) as (c1 & m1 & FL & S1 & SC);
+  destruct (fini_range (ehf e) sz (bsize b) EL (S (length EL * sz)) 0 [] J c m) as (c1 & m1 & FL & S1 & SC);
     try assumption; try reflexivity.
   { nia. }
   cbn [Nat.mul Nat.add app] in FL. rewrite SL, FL. cbn [bind].
   do 3 eexists. split; [reflexivity|]. split; [|reflexivity].
-  change (map SDead EL ++ J) with (map STok [] ++ (map SDead EL ++ J)).
+  change (map (dead (ehf e)) EL ++ J) with (map STok [] ++ (map (dead (ehf e)) EL ++ J)).
   eapply (local_ok_intro e b c m c1 m1 k EL EL [] []); eauto.
   - intros x Hx. assumption.
   - constructor.
